@@ -220,7 +220,8 @@ pub fn pair_case(i: u64) -> CorruptCase {
 
 const VAC_SIZES: [u64; 2] = [0x0800_0000, 0x7FFF_FFFF];
 const VAC_COUNTS: [u64; 2] = [0x10_0000, 0x7FFF_FFFF];
-const VAC_PER_LEAF: u64 = 2 * (VAC_SIZES.len() * VAC_COUNTS.len() * PAIR_WORDS.len()) as u64;
+/// per leaf and per choice of lying ancestors (each enclosing box alone, then all of them)
+const VAC_PER_CHOICE: u64 = (VAC_SIZES.len() * VAC_COUNTS.len() * PAIR_WORDS.len()) as u64;
 
 struct VacTable {
     /// (image, cases before it, leaves: (start, hdr, span, offsets of the largesize fields of the enclosing boxes outermost first, path))
@@ -255,7 +256,7 @@ fn with_vac<T>(f: impl FnOnce(&VacTable) -> T) -> T {
                         leaves.push((n.start as u64, n.hdr as u64, (n.size - n.hdr) as u64, anc, n.path.clone()));
                     }
                 }
-                let cnt = leaves.len() as u64 * VAC_PER_LEAF;
+                let cnt: u64 = leaves.iter().map(|l: &(u64, u64, u64, Vec<u64>, String)| (l.3.len() as u64 + 1) * VAC_PER_CHOICE).sum();
                 images.push((spec, total, leaves));
                 total += cnt;
             }
@@ -273,11 +274,19 @@ pub fn vac_case(i: u64) -> CorruptCase {
     with_vac(|t| {
         let i = i % t.total.max(1);
         let (spec, base, leaves) = t.images.iter().rev().find(|(_, b, _)| *b <= i).expect("vac table");
-        let k = i - base;
-        let (start, hdr, span, anc, path) = &leaves[(k / VAC_PER_LEAF) as usize];
-        let j = k % VAC_PER_LEAF;
-        let all_ancestors = j % 2 == 1;
-        let j = j / 2;
+        let mut k = i - base;
+        let mut li = 0usize;
+        while li < leaves.len() {
+            let c = (leaves[li].3.len() as u64 + 1) * VAC_PER_CHOICE;
+            if k < c {
+                break;
+            }
+            k -= c;
+            li += 1;
+        }
+        let (start, hdr, span, anc, path) = &leaves[li.min(leaves.len() - 1)];
+        let choice = (k / VAC_PER_CHOICE) as usize; // 0..anc.len(): that ancestor alone; anc.len(): all
+        let j = k % VAC_PER_CHOICE;
         let wi = (j % PAIR_WORDS.len() as u64) as usize;
         let ci = ((j / PAIR_WORDS.len() as u64) % VAC_COUNTS.len() as u64) as usize;
         let si = (j / (PAIR_WORDS.len() * VAC_COUNTS.len()) as u64) as usize;
@@ -285,7 +294,7 @@ pub fn vac_case(i: u64) -> CorruptCase {
         let img = build(spec).bytes;
         let mut faults = Vec::new();
         let mut labels = Vec::new();
-        let which: Vec<u64> = if all_ancestors { anc.clone() } else { anc[..1].to_vec() };
+        let which: Vec<u64> = if choice >= anc.len() { anc.clone() } else { vec![anc[choice]] };
         for off in which {
             let cur = crate::indep::be64(&img, off as usize);
             faults.push(StorageFault::SetField { off, width: 8, val: cur | (1u64 << 63) });
